@@ -22,6 +22,9 @@ class Pidfile:
         oldpid = self.validate()
         if oldpid:
             if oldpid == os.getpid():
+                # the file already names us (stale file of a previous run with
+                # the same pid): it is ours, remember that for unlink/rename
+                self.pid = pid
                 return
             msg = "Already running on PID %s (or pid file '%s' is stale)"
             raise RuntimeError(msg % (oldpid, self.fname))
